@@ -44,6 +44,14 @@ func runReq(c reqCase) harness.Result {
 			return harness.Result{Labels: append(labels, "legal-but-constructor-refuses")}
 		}
 		frame := q.Bytes()
+		if n := len(frame); c.Framing == spec.RTU && n > 2 {
+			if cl := hostile.BodyCRCClass(frame[:n-2]); cl != "" {
+				labels = append(labels, "rtu-body-crc:"+cl)
+			}
+			if frame[0] == ':' && frame[n-2] == '\r' && frame[n-1] == '\n' {
+				labels = append(labels, "rtu-frame-looks-like-modbus-ascii")
+			}
+		}
 		if want := spec.EncodeRequest(c.Framing, r); !bytes.Equal(frame, want) {
 			// C01's business; do not judge here, but the round trip below is on the library's bytes
 			labels = append(labels, "encoding-differs-from-spec")
